@@ -24,7 +24,7 @@ ASSUMPTIONS = ['master-equation expectation computed with scipy expm on the 3^N 
 BUDGET = {'quick': 170, 'thorough': 1700}
 CHUNK = {'quick': 4, 'thorough': 10}
 CASE_TIMEOUT = 400
-REQUIRED = ['trees_compared', 'tree_node_curves_compared', 'final_sizes_compared', 'final_size_form_sets', 'final_size_form_direct', 'final_size_form_sk0', 'final_size_sets_on_multigraph', 'final_size_with_initially_recovered', 'recurrences_checked', 'tau0_models_checked', 'gamma0_pairs_compared']
+REQUIRED = ['trees_compared', 'tree_node_curves_compared', 'final_sizes_compared', 'final_size_form_sets', 'final_size_form_direct', 'final_size_form_sk0', 'final_size_sets_on_multigraph', 'gamma0_pairs_on_networks_with_mean_degree_below_1', 'final_size_with_initially_recovered', 'recurrences_checked', 'tau0_models_checked', 'gamma0_pairs_compared']
 
 SIS_SIR_PAIRS = [('SIS_homogeneous_meanfield_from_graph', 'SIR_homogeneous_meanfield_from_graph'), ('SIS_homogeneous_pairwise_from_graph', 'SIR_homogeneous_pairwise_from_graph'),
                  ('SIS_heterogeneous_meanfield_from_graph', 'SIR_heterogeneous_meanfield_from_graph'), ('SIS_heterogeneous_pairwise_from_graph', 'SIR_heterogeneous_pairwise_from_graph'),
@@ -80,7 +80,16 @@ def gen_cases(tier, seed):
             kk = r.choice([2, 3, 4])
             nn = r.choice([6, 8])
             g = nx.random_regular_graph(kk, nn, seed=r.randrange(10 ** 9))
+        if kind in ('tau0', 'gamma0') and (j // len(kinds)) % 5 == 3:
+            # very sparse network (average degree below 1: a partial matching plus isolated nodes)
+            nn = r.randint(8, 16)
+            g = nx.Graph()
+            g.add_nodes_from(range(nn))
+            for a in range(0, nn // 2 - r.randint(0, 2), 2):
+                g.add_edge(a, a + 1)
         desc = {'n': g.number_of_nodes(), 'edges': sorted([sorted(e) for e in g.edges()]), 'labels': r.choice(gen.LABEL_SCHEMES)}
+        if desc['n'] and 2.0 * len(desc['edges']) / desc['n'] < 1:
+            desc['sparse'] = True
         if kind in ('final', 'final_d') and (j // len(kinds)) % 4 in (1, 2) and r.random() < 0.5:
             # the raw configuration-model MultiGraph (parallel edges, self-loops), as in the library's own examples
             mg = nx.configuration_model(degs, seed=r.randrange(10 ** 9))
@@ -375,6 +384,8 @@ def run_gamma0(case, res):
         Sa, Sb = Sa[:int(cut[0]) + 1], Sb[:int(cut[0]) + 1]
         bump(res, 'singular_tail_cases_truncated')
     bump(res, 'gamma0_pairs_compared')
+    if case['graph'].get('sparse'):
+        bump(res, 'gamma0_pairs_on_networks_with_mean_degree_below_1')
     d = float(np.max(np.abs(Sa - Sb))) / N
     setmax(res, 'max_gamma0_distance_over_N', d)
     if d > 5e-4:
